@@ -431,6 +431,69 @@ func (e *env) directed(rng *rand.Rand) []*program {
 	return res
 }
 
+// directedPairs (round 5): a state-changing call followed, in the same transaction, by a VIEW of what it changed, after
+// which the frame (shape 0: a code-borrowing frame that REVERTs and is caught) or the whole transaction (shape 1: INVALID)
+// is dropped — a view that tidies up what it looks at, or any write made while answering a query, shows only in such a
+// history (the record must have been zeroed / created by the earlier call)
+var directedPairs = [][2]string{{"approveShares/zero-existing", "allowanceShares/grant-to-sink"}, {"transferFromShares/exact-allowance", "allowanceShares/exact-grant"},
+	{"approveShares", "allowanceShares"}, {"delegateV2", "delegation"}, {"transferShares", "delegationRewards"}, {"crossChain/origin", "bridgeCoinAmount"}}
+
+func (e *env) directedPairPrograms(rng *rand.Rand) []*program {
+	var res []*program
+	for _, pair := range directedPairs {
+		for shape := 0; shape < 3; shape++ {
+			p := &program{meta: map[int]*meta{}, nodes: map[int]*evmx.Node{}, ctxOf: map[int]common.Address{}, inner: map[int]*inner{}, used: map[int]bool{}}
+			p.addrs = []common.Address{e.pool[0], e.pool[1]}
+			e.attachGen(rng, p)
+			p.next = 12
+			p.depth = 2
+			p.noHook = true
+			ctx := e.pool[0]
+			var nds [2]*evmx.Node
+			for i, want := range pair {
+				for try := 0; try < 40000 && nds[i] == nil; try++ {
+					nd := &evmx.Node{ID: 10 + i}
+					mt := e.genPre(rng, p, nd, ctx, false)
+					if mt.variant != want || nd.Kind != evmx.KCall || nd.Gas != 0 || nd.Swallow || mt.mode == "fail" || p.inner[nd.ID] != nil || (nd.Value != nil && nd.Value.BitLen() > 90) {
+						delete(p.inner, nd.ID)
+						continue
+					}
+					nd.Op = "pre"
+					p.meta[nd.ID], p.nodes[nd.ID], p.ctxOf[nd.ID] = mt, nd, ctx
+					nds[i] = nd
+				}
+			}
+			p.noHook = false
+			if nds[0] == nil || nds[1] == nil {
+				e.cnt("directed-not-found:pair:" + pair[0] + "+" + pair[1])
+				continue
+			}
+			mk := func(id int, c common.Address) *evmx.Node {
+				n := &evmx.Node{Op: "sstore", ID: id, Slot: uint64(id), Val: 1}
+				p.nodes[id], p.ctxOf[id] = n, c
+				return n
+			}
+			switch shape {
+			case 0: // the view runs in a DELEGATECALL frame (same caller identity) that REVERTs afterwards and is caught
+				rv := &evmx.Node{Op: "revert", ID: 4}
+				p.nodes[4], p.ctxOf[4] = rv, ctx
+				cl := &evmx.Node{Op: "call", ID: 5, Kind: evmx.KDelegate, To: e.pool[1], Swallow: true, Body: []*evmx.Node{mk(3, ctx), nds[1], rv}}
+				p.nodes[5], p.ctxOf[5] = cl, ctx
+				p.root = []*evmx.Node{mk(1, ctx), nds[0], cl, mk(2, ctx)}
+			case 1: // the whole transaction fails after the view
+				iv := &evmx.Node{Op: "invalid", ID: 4}
+				p.nodes[4], p.ctxOf[4] = iv, ctx
+				p.root = []*evmx.Node{mk(1, ctx), nds[0], nds[1], iv}
+			default: // everything is kept
+				p.root = []*evmx.Node{mk(1, ctx), nds[0], nds[1], mk(2, ctx)}
+			}
+			res = append(res, p)
+			e.cnt("directed:pair:" + pair[0] + "+" + pair[1])
+		}
+	}
+	return res
+}
+
 var preMethods = []string{"delegateV2", "delegateV2", "undelegateV2", "redelegateV2", "withdraw", "approveShares", "approveShares",
 	"transferShares", "transferFromShares", "transferFromShares", "crossChain", "crossChain", "crossChain", "cancelSendToExternal", "cancelSendToExternal",
 	"increaseBridgeFee", "increaseBridgeFee", "bridgeCall", "bridgeCall", "bridgeCall", "executeClaim", "executeClaim", "delegation", "hasOracle", "delegationRewards", "delegationRewards",
